@@ -42,3 +42,13 @@ package pmsg
 //@   ensures[justification_value_follows_the_step_pair] pgmsg.Justification != nil ==> pgmsg.Justification.Vote.Value ==
 //@        ite(((pgmsg.Vote.Phase == gpbft.CONVERGE_PHASE || pgmsg.Vote.Phase == gpbft.PREPARE_PHASE || pgmsg.Vote.Phase == gpbft.COMMIT_PHASE) && pgmsg.Justification.Vote.Phase == gpbft.PREPARE_PHASE)
 //@              || (pgmsg.Vote.Phase == gpbft.DECIDE_PHASE && pgmsg.Justification.Vote.Phase == gpbft.COMMIT_PHASE), pgmsg.Vote.Value, old(pgmsg.Justification.Vote.Value))
+
+// C18 "pruning removes exactly the instances below the given one": a prune request always reaches the chain exchange
+// with the requested instance, whether or not partial messages were buffered for older instances.
+//@ func (*PartialMessageManager).Start$1
+//@   property C18
+//@   modifies auto
+//@   maypanic
+//@   opaque RemoveChainsByInstance
+//@   at RemoveChainsByInstance 1
+//@     before[the_chain_exchange_is_pruned_below_the_requested_instance] arg(0) == pmm.chainex && arg(2) == instance && ok
